@@ -84,6 +84,7 @@ pub mod verif_hooks {
     pub use super::links::{Links, TriggerUnlink};
     pub use super::remotes::verif_hooks::Uplinks;
     pub use super::remotes::{LaneRegistry, RemoteSender, RemoteTracker, UplinkResponse};
+    pub use super::verif_http_task::{http_task_for_verif, HttpTaskHandles};
     pub use super::verif_write_task::{
         write_task_for_verif, write_task_for_verif_reporting, WriteTaskHandles,
     };
@@ -2142,6 +2143,50 @@ fn not_found(lane_name: Option<&str>, response_tx: HttpResponseSender) {
     };
     if response_tx.send(not_found_response).is_err() {
         error!("HTTP connection was terminated before the response cound be sent.");
+    }
+}
+
+/// Access to the (private) HTTP task on its own for the verification harness: the harness plays
+/// the server (incoming requests), the agent (the receiving ends of the HTTP lanes) and the two
+/// other voters.
+#[cfg(swimos_verif)]
+pub mod verif_http_task {
+    use super::*;
+
+    pub struct HttpTaskHandles {
+        pub read_voter: timeout_coord::Voter,
+        pub write_voter: timeout_coord::Voter,
+        pub vote_rx: timeout_coord::Receiver,
+        pub stop: Option<trigger::Sender>,
+        /// Incoming requests (as sent by the server).
+        pub requests_tx: mpsc::Sender<HttpLaneRequest>,
+        /// The agent's end of every initial HTTP lane.
+        pub lanes: Vec<(Text, mpsc::Receiver<HttpLaneRequest>)>,
+        /// Kept open so that the task does not stop for want of a registration channel.
+        pub registrations_tx: mpsc::Sender<HttpLaneRuntimeSpec>,
+    }
+
+    /// The HTTP task of an agent with the given initial HTTP lanes (each with a request channel of
+    /// `lane_http_request_channel_size`).
+    pub fn http_task_for_verif(
+        runtime_config: AgentRuntimeConfig,
+        lanes: Vec<&str>,
+        request_queue: usize,
+    ) -> (impl Future<Output = ()> + Send + 'static, HttpTaskHandles) {
+        let (stop_tx, stop_rx) = trigger::trigger();
+        let (requests_tx, requests_rx) = mpsc::channel(request_queue);
+        let (registrations_tx, registrations_rx) = mpsc::channel(8);
+        let mut endpoints = vec![];
+        let mut agent_side = vec![];
+        for name in lanes {
+            let (tx, rx) = mpsc::channel(runtime_config.lane_http_request_channel_size.get());
+            endpoints.push(HttpLaneEndpoint::new(Text::new(name), tx));
+            agent_side.push((Text::new(name), rx));
+        }
+        let (vote1, vote2, vote3, vote_rx) = timeout_coord::agent_timeout_coordinator();
+        let task = http_task(stop_rx, runtime_config, requests_rx, endpoints, registrations_rx, vote3);
+        let handles = HttpTaskHandles { read_voter: vote1, write_voter: vote2, vote_rx, stop: Some(stop_tx), requests_tx, lanes: agent_side, registrations_tx };
+        (task, handles)
     }
 }
 
